@@ -42,6 +42,10 @@ def render(h, stub_path):
     core_path = "crate" if (isinstance(h.where, tuple) and h.where[0] == "core") else "mech_core"
     if getattr(h, "stub_loc", False):
         attrs.append("#[kani::stub(%s::MechError::with_compiler_loc, verif_stub_loc)]" % core_path)
+    if getattr(h, "stub_kind", False):
+        # Value::kind() is only used to fill error values on the paths of these harnesses (checked per property); building
+        # the recursive ValueKind makes CBMC unwind ValueKind::clone for every Value variant
+        attrs.append("#[kani::stub(%s::Value::kind, verif_stub_kind)]" % core_path)
     attrs.extend(getattr(h, "attrs", []))
     return "\n".join(attrs) + "\npub fn %s() {\n%s\n}\n" % (h.name, h.text)
 
@@ -52,6 +56,8 @@ def module_text(prop, harnesses, prelude="", extra=""):
     for h in harnesses:
         body += render(h, "verif_stub_format") + "\n"
     loc = "  pub fn verif_stub_loc(e: MechError) -> MechError { e }\n" if any(getattr(h, "stub_loc", False) for h in harnesses) else ""
+    if any(getattr(h, "stub_kind", False) for h in harnesses):
+        loc += "  pub fn verif_stub_kind(_v: &Value) -> ValueKind { ValueKind::Empty }\n"
     return ("#[allow(warnings)]\npub mod verif_%s {\n  use super::*;\n  use std::mem::forget;\n"
             "  pub fn verif_stub_format(_a: std::fmt::Arguments<'_>) -> String { String::new() }\n"
             "%s%s\n%s\n}\n"
